@@ -2,4 +2,5 @@ import Driver.Proto
 import Driver.OpsTime
 import Driver.OpsBattery
 import Driver.OpsFail
+import Driver.OpsAcct
 import Driver.Main
